@@ -341,3 +341,94 @@ for _n, _t in ((2, 8), (3, 7)):
             replay='c04_chunks', max_paths=60000,
             assumptions=['BOUNDED stand-in: %d reads with a total of at most %d bytes (symbolic content and split points), loops unrolled; '
                          'parse_or_ignore through its weakest contract' % (_n, _t)])(_chunked_history(_n, _t))
+
+
+# --------------------------------------------------------------------------- message transports: one message in, its frames out, in order
+
+QUART = 'rsocket/transports/quart_websocket.py::TransportQuartWebsocket'
+WSS = 'rsocket/transports/websockets_transport.py::WebsocketsTransport'
+AIOC = 'rsocket/transports/aiohttp_websocket.py::TransportAioHttpClient'
+AIOS = 'rsocket/transports/aiohttp_websocket.py::TransportAioHttpWebsocket'
+
+
+def _messaging(which):
+    """BOUNDED in the number of messages (3) only: contents are opaque.  The websocket libraries are abstract: the socket is an
+    object that hands out messages and accepts bytes.  Clauses (C04 / C01): every binary message is given to the parser
+    whole, in message mode (prefix length 0), exactly once and in order; every frame the parser yields for it is queued for
+    the receiver, in order, nothing dropped; send_frame hands exactly frame.serialize() to the socket."""
+    from pyvc import aio
+
+    def run(E):
+        E.import_module('asyncio')
+        cls = E.lookup({'quart': QUART, 'websockets': WSS, 'aiohttp-client': AIOC, 'aiohttp-server': AIOS}[which])
+        fed, frames_out = [], []
+
+        def recv(E_, f, a, k):
+            hl = a[2] if len(a) > 2 else k.get('header_length', 3)
+            n = E_.path.choice(3, 'frames-in-message')        # a message holds 0 (ignored/invalid-free), 1 or - malformed peers - more
+            out = [SOpaque('frame', 'frame(%d,%d)' % (len(fed), i)) for i in range(n)]
+            fed.append((a[1], hl))
+            frames_out.extend(out)
+            return list(out)
+        E.stubs[RECV] = recv
+        BIN = SOpaque('wsmsgtype', 'BINARY')
+        TXT = SOpaque('wsmsgtype', 'TEXT')
+        datas = [SOpaque('bytes', 'message%d' % i) for i in range(3)]
+        sent = []
+        E.suspend_hook = lambda E_, what: None
+        if which == 'quart':
+            t = E.call(cls, [])
+            mod = E.module('rsocket.transports.quart_websocket')
+            pending = list(datas)
+
+            def receive(E_, o, m, a, k):
+                if not pending:
+                    E_.throw('CancelledError')
+                return aio.Awaitable('ready', result=pending.pop(0))
+            log = OpaqueLog(E, returns={'receive': receive, 'send': lambda E_, o, m, a, k: (sent.append(a[0]), aio.Awaitable('ready'))[1]})
+            mod.globals['websocket'] = SOpaque('websocket', 'quart-websocket')
+            E.await_value(E.call(E.getattr(t, 'handle_incoming_ws_messages'), []))
+            binary = datas
+        elif which == 'websockets':
+            t = E.call(cls, [])
+            log = OpaqueLog(E)
+            E.await_value(E.call(E.getattr(t, 'consumer_handler'), [list(datas)]))
+            binary = datas
+        else:
+            kinds = [BIN if E.path.choice(2, 'message%d-binary' % i) == 0 else TXT for i in range(3)]
+            msgs = [SOpaque('wsmsg', 'msg%d' % i, attrs={'type': kinds[i], 'data': datas[i]}) for i in range(3)]
+            mod = E.module('rsocket.transports.aiohttp_websocket')
+            mod.globals['aiohttp'] = SOpaque('module', 'aiohttp', attrs={'WSMsgType': SOpaque('enum', 'WSMsgType', attrs={'BINARY': BIN, 'TEXT': TXT})})
+            log = OpaqueLog(E, returns={'send_bytes': lambda E_, o, m, a, k: (sent.append(a[0]), aio.Awaitable('ready'))[1]})
+            ws = SOpaque('websocket', 'aiohttp-websocket')
+            ws._pyvc_iter = lambda E_: list(msgs)
+            if which == 'aiohttp-client':
+                t = E.call(cls, [None, ws])
+                t.attrs['_connection_ready'].attrs['flag'] = True
+            else:
+                t = E.call(cls, [ws])
+            E.await_value(E.call(E.getattr(t, 'handle_incoming_ws_messages'), []))
+            binary = [d for d, kd in zip(datas, kinds) if kd is BIN]
+        E.cover('messages-processed')
+        P = E.prove
+        P('messaging:every_binary_message_parsed_whole_once_in_order_in_message_mode',
+          len(fed) == len(binary) and all(f[0] is b and f[1] == 0 for f, b in zip(fed, binary)))
+        q = t.attrs['_incoming_frame_queue'].attrs['_queue']
+        P('messaging:every_parsed_frame_queued_for_the_receiver_in_order', len(q) == len(frames_out) and all(a is b for a, b in zip(q, frames_out)))
+        if which != 'websockets':
+            fr = SOpaque('frame', 'outgoing', attrs={})
+            wire = SOpaque('bytes', 'serialized')
+            log.returns['serialize'] = lambda *a: wire
+            E.await_value(E.call(E.getattr(t, 'send_frame'), [fr]))
+            P('messaging:send_frame_writes_exactly_the_serialized_frame_as_one_message', len(sent) == 1 and sent[0] is wire)
+    return run
+
+
+for _w in ('quart', 'websockets', 'aiohttp-client', 'aiohttp-server'):
+    harness('c04.messaging.%s' % _w, ['C04', 'C01'], functions=[{'quart': QUART + '.handle_incoming_ws_messages', 'websockets': WSS + '.consumer_handler',
+                                                              'aiohttp-client': AIOC + '.handle_incoming_ws_messages',
+                                                              'aiohttp-server': AIOS + '.handle_incoming_ws_messages'}[_w],
+                                                             AMT + '.__init__'],
+            assumptions=['the websocket library objects (quart.websocket, aiohttp / websockets sockets) are abstract: they hand out whole '
+                         'messages in order and accept bytes; three messages per run (contents opaque, types symbolic)',
+                         'FrameParser.receive_data is used through its contract (c04.receive_data[message])'])(_messaging(_w))
